@@ -46,6 +46,8 @@ def run(c):
         conc = dict(workload=wl, txns=3, keys=keys, slot=slot, sched="gate", max_step=8)
         ctr, _ = _conc.run_conc(c, binp, "k%d" % vi, c.pick(12, 120), conc)
         for n, h, evs in ctr:
+            if any(e.get("ev") == "CommitEnd" and not e.get("ok") and any(w in e.get("note", "").lower() for w in ("deadline", "timed out")) for e in evs):
+                continue   # gate-induced timeout (a transaction waited for a parked one): inconclusive, see C04
             obs = [e for e in evs if e.get("ev") == "Observe" and e.get("exists")]
             observes += len(obs)
             if obs and obs[-1].get("count") != len(obs[-1].get("items") or []):
